@@ -81,6 +81,26 @@ def execute(spec):
         # scikit-learn numbers the elements of its HTML diagram with a process-wide counter: ids, not content
         text = re.sub(r"sk-(estimator|container)-id-\d+", r"sk-\1-id-N", c.render())
         return ("card-real", text, list(c._metrics.items()) if hasattr(c, "_metrics") else None)
+    if kind == "card-file":
+        # a card built from an archive on disk: Card(path, trusted=...) then hyper-parameters and rendering
+        import re
+
+        from skops.card import Card
+
+        try:
+            c = Card(spec[1], trusted=spec[2], template=None)
+            c.add_hyperparams("Hyperparameters")
+            if spec[3]:
+                # what a user may do with *their* card's model; must not show in any other card
+                c.get_model().set_params(**spec[3])
+            text = re.sub(r"sk-(estimator|container)-id-\d+", r"sk-\1-id-N", c.render())
+            # object addresses inside reprs are ids; the table is padded to the widest cell, so runs of blanks and dashes are collapsed
+            def norm(t):
+                return re.sub(r"-{3,}", "---", re.sub(r" {2,}", " ", re.sub(r" at 0x[0-9a-fA-F]+", " at 0xADDR", t)))
+
+            return ("card-file", norm(text), norm(repr(c.get_model().get_params())))
+        except Exception as ex:
+            return ("raised", type(ex).__name__, str(ex)[:120])
     raise ValueError(kind)
 
 
